@@ -244,6 +244,19 @@ def exp_ratio_sites(fn):
     inits = let_inits(fn)
     pm = parent_map(fn["body"])
 
+    exp_nodes = {}
+
+    def under_test_of(node, locs):
+        cur = node
+        while id(cur) in pm:
+            par = pm[id(cur)]
+            if par.get("k") == "If":
+                cl = set(x.get("local") for x in walk(par["c"]) if x.get("k") == "Path" and "local" in x)
+                if cl & locs:
+                    return True
+            cur = par
+        return False
+
     def exp_args(n, depth=0, seen=None):
         """arguments of the exp calls the expression depends on (through let bindings)"""
         seen = seen if seen is not None else set()
@@ -253,6 +266,7 @@ def exp_ratio_sites(fn):
         for x in walk(n):
             if x.get("k") == "MethodCall" and x["name"] == "exp":
                 out.append(x["recv"])
+                exp_nodes[id(x["recv"])] = x
             elif x.get("k") == "Path" and x.get("local") in inits and x["local"] not in seen:
                 seen.add(x["local"])
                 out += exp_args(inits[x["local"]], depth + 1, seen)
@@ -275,4 +289,9 @@ def exp_ratio_sites(fn):
                 if cl & arg_locals:
                     guarded = True
             cur = par
+        if not guarded:
+            # `let (num, e) = if f >= 0 { let t = (-f).exp(); (t, t) } else { (1, f.exp()) }; num / (1 + e)`: every exponential
+            # the quotient depends on is itself evaluated under a test of its own argument
+            each = [exp_nodes.get(id(a)) for a in na + da]
+            guarded = all(e_ is not None and under_test_of(e_, set(x.get("local") for x in walk(e_["recv"]) if x.get("k") == "Path" and "local" in x)) for e_ in each)
         yield n, (shifted or guarded), ("shifted by a maximum" if shifted else "under a test of the argument" if guarded else "unguarded")
